@@ -85,8 +85,9 @@ class Frame:
 
 
 class Evaluator:
-    def __init__(self, repo: Repo, inline_depth=4, budget=40000, inline_filter=None):
+    def __init__(self, repo: Repo, inline_depth=4, budget=40000, inline_filter=None, plugin_methods=None):
         self.repo = repo
+        self.plugin_methods = plugin_methods or {}  # method name -> FuncInfo (plugin interface implementations)
         self.inline_depth = inline_depth
         self.budget = budget
         self.inline_filter = inline_filter  # callable(FuncInfo) -> bool
@@ -409,6 +410,8 @@ class Evaluator:
                 return self.enum_value(base)
             if attr == "name":
                 return base.args[1]
+        if isinstance(base, App) and base.op == "tag" and attr in ("tag", "value"):
+            return base.args[0] if attr == "tag" else base.args[1]
         if isinstance(base, Const):
             return App("cmeth", (base, Const(attr)), node)
         # instance of a repository class: self / new objects
@@ -670,6 +673,8 @@ class Evaluator:
                 t = App("eff:write", (recv, args[0] if args else Const(None)), e)
                 st.effects.append(t)
                 return Const(None)
+        if name in self.plugin_methods and fr.depth < self.inline_depth:
+            return self.invoke(self.plugin_methods[name], recv, args, kwargs, starkw, e, st, fr)
         t = App("meth:" + name, [recv] + args + self.kwterms(kwargs) + ([App("starkw", (starkw,))] if starkw else []), e)
         if name not in PURE_METHODS:
             self.record_call(t, st)
@@ -697,8 +702,8 @@ class Evaluator:
         elif li is not None and name == "reverse":
             store(mk_list(list(reversed(li))))
         else:
-            # unknown mutation: the container is no longer statically known
-            if isinstance(target_expr, ast.Name) and (li is not None or dict_pairs(recv) is not None):
+            # unknown mutation: keep a record of it on the local so that later uses see the mutated value
+            if isinstance(target_expr, ast.Name):
                 st.env[target_expr.id] = App("mutated", (recv, Const(name)) + tuple(args))
 
     def call_term(self, callee, args, kwargs, starkw, e, st, fr):
@@ -806,6 +811,11 @@ class Evaluator:
                 return self.cbor(args[0], e)
         if dotted == "cbor2.CBORTag" and len(args) == 2:
             return App("tag", args, e)
+        if dotted in ("cbor2.loads", "cbor2.load") and len(args) == 1 and not kwargs:
+            site = Const(("site", getattr(e, "lineno", 0), getattr(e, "col_offset", 0)))
+            t = App("cborload", (args[0], site), e)
+            self.record_call(t, st)
+            return t
         if dotted == "open":
             mode = args[1] if len(args) > 1 else Const("r")
             t = App("open", (args[0], mode), e)
@@ -1169,7 +1179,7 @@ class Evaluator:
             for x in ast.walk(n):
                 if isinstance(x, ast.Name) and isinstance(x.ctx, ast.Store):
                     out.add(x.id)
-                elif isinstance(x, (ast.Subscript, ast.Attribute)) and isinstance(x.ctx, (ast.Store, ast.Del)) \
+                elif isinstance(x, ast.Subscript) and isinstance(x.ctx, (ast.Store, ast.Del)) \
                         and isinstance(x.value, ast.Name):
                     out.add(x.value.id)
                 elif isinstance(x, ast.Call) and isinstance(x.func, ast.Attribute) and x.func.attr in self.MUTATORS \
@@ -1227,15 +1237,22 @@ class Evaluator:
         sub.conds = list(st.conds) + [App("inloop", (it,), s)]
         fall, ex = self.exec_block(s.body, sub, fr)
         exits = []
-        body_eff = list(fall.effects[base_e:]) if fall is not None else []
+        alts = [list(fall.effects[base_e:])] if fall is not None else []
         for x in ex:
             if x.kind in ("return", "raise"):
                 exits.append(x)
             else:
-                # effects of break/continue paths are part of the loop body effects
-                extra = x.effects[base_e:]
-                if extra and fall is None:
-                    body_eff = list(extra)
+                # effects of break/continue paths are alternatives of the loop body
+                alts.append(list(x.effects[base_e:]))
+        alts = [a for a in alts if a] or [[]]
+        if len(alts) == 1:
+            body_eff = alts[0]
+        else:
+            # common prefix stays linear, the rest becomes alternatives
+            k = 0
+            while all(len(a) > k for a in alts) and all(a[k] is alts[0][k] for a in alts):
+                k += 1
+            body_eff = list(alts[0][:k]) + [App("eff:alts", [App("seq", a[k:]) for a in alts], s)]
         out = st.copy()
         out.effects = list(st.effects[:base_e]) + [App("eff:loop", (it, App("seq", body_eff)), s)]
         final_env = fall.env if fall is not None else sub.env
@@ -1399,6 +1416,11 @@ def flatten_effects(effects, choose_loops=True):
             for pre in go(list(head.args[0].args)):
                 for post in go(rest):
                     yield pre + post
+        elif isinstance(head, App) and head.op == "eff:alts":
+            for alt in head.args:
+                for pre in go(list(alt.args)):
+                    for post in go(rest):
+                        yield pre + post
         else:
             for post in go(rest):
                 yield [head] + post
@@ -1416,5 +1438,8 @@ def all_effects(effects):
             yield from all_effects(e.args[1].args)
         elif isinstance(e, App) and e.op == "eff:partial":
             yield from all_effects(e.args[0].args)
+        elif isinstance(e, App) and e.op == "eff:alts":
+            for alt in e.args:
+                yield from all_effects(alt.args)
         else:
             yield e
